@@ -110,7 +110,11 @@ DYN_SOURCES = {
     'c15dyn/other.py': 'def gb(p=None, q=None):\n  return (p, q)\n',
 }
 MISSING_IMPORTS = ['import c15_no_such_module', 'from c15_no_such_pkg import thing',
-                   'import c15dyn_missing.sub as zz']
+                   'import c15dyn_missing.sub as zz',
+                   # a module that is there but cannot be imported: it raises a plain ImportError
+                   # (one that names no module) while it is being imported
+                   'import c15raising']
+RAISING_SOURCE = "raise ImportError('optional dependency not installed')\n"
 GOOD_IMPORTS = ['import math', 'from os import path', 'import json as js']
 
 
@@ -206,6 +210,8 @@ def check_case(case):
     if not skip[1]:
       raise OutOfDomain('empty collection')
   tmp = tempfile.mkdtemp(prefix='c15-')
+  with open(os.path.join(tmp, 'c15raising.py'), 'w') as f:
+    f.write(RAISING_SOURCE)
   if mode != 'dynamic':
     with open(os.path.join(tmp, 'c15late.py'), 'w') as f:
       f.write(LATE_SOURCE)
